@@ -124,6 +124,16 @@ func (fc *FuncCtx) evalCall(st *State, call *ast.CallExpr) []Term {
 		}
 	}
 	if c == nil {
+		c = fc.w.defaultExtern(key, fn)
+	}
+	if c == nil {
+		if decl := fc.w.FuncDecls[key]; decl != nil {
+			if why := fc.canInline(key, decl, fn); why == "" {
+				return fc.inlineCall(st, call, fn, recvExpr, key, decl)
+			} else {
+				fc.fail(call, "no contract for callee %s (not inlined: %s)", key, why)
+			}
+		}
 		fc.fail(call, "no contract for callee %s", key)
 	}
 	fc.usedContracts[key] = true
@@ -176,6 +186,28 @@ func contractParamNames(fn *types.Func, c *Contract) (recv string, params []stri
 			n = "p" + strconv.Itoa(i)
 		}
 		params = append(params, n)
+	}
+	if c != nil && len(c.Names) >= len(params)+b2i(sig.Recv() != nil)+sig.Results().Len() {
+		// names as of the time the contract was written (a renamed parameter keeps its contract name)
+		k := 0
+		if sig.Recv() != nil {
+			if c.Names[0] != "_" {
+				recv = c.Names[0]
+			}
+			k = 1
+		}
+		for i := range params {
+			if c.Names[k+i] != "_" {
+				params[i] = c.Names[k+i]
+			}
+		}
+		defer func() {
+			for i := range results {
+				if n := c.Names[k+len(params)+i]; n != "_" {
+					results[i] = n
+				}
+			}
+		}()
 	}
 	if c != nil && len(c.Params) > 0 {
 		ps := c.Params
@@ -1017,4 +1049,219 @@ func (fc *FuncCtx) dispatchByCases(st *State, call *ast.CallExpr, fn *types.Func
 		}
 	}
 	return results, true
+}
+
+// defaultExtern is the contract assumed for a function outside the repository's module that has no written
+// contract: it returns arbitrary values of its result types, may change whatever its pointer, slice and map
+// arguments refer to, does not panic and changes no package variable of the repository. Functions that take a
+// function value are excluded (the callee could run repository code). The use is reported as an assumption.
+func (w *World) defaultExtern(key string, fn *types.Func) *Contract {
+	if c, ok := w.defaultContracts[key]; ok {
+		return c
+	}
+	if fn.Pkg() == nil || fn.Pkg().Path() == repoModule || strings.HasPrefix(fn.Pkg().Path(), repoModule+"/") {
+		return nil
+	}
+	sig := fn.Type().(*types.Signature)
+	recv, params, _ := contractParamNames(fn, nil)
+	c := &Contract{Key: key, Loops: map[int]*LoopContract{}, Src: "default contract", Trusted: true, Opts: map[string]string{"default": "1"}}
+	add := func(name string, t types.Type) bool {
+		switch u := t.Underlying().(type) {
+		case *types.Signature:
+			return false
+		case *types.Slice:
+			if _, isFn := u.Elem().Underlying().(*types.Signature); isFn {
+				return false
+			}
+			if _, isIface := u.Elem().Underlying().(*types.Interface); isIface {
+				return true // variadic ...interface{}: boxed values are not written through
+			}
+			e, _ := parseCExpr("contents(" + name + ")")
+			c.Modifies = append(c.Modifies, &Clause{Kind: "modifies", Text: "contents(" + name + ")", Expr: e, Src: c.Src})
+		case *types.Pointer, *types.Map:
+			e, _ := parseCExpr(name)
+			c.Modifies = append(c.Modifies, &Clause{Kind: "modifies", Text: name, Expr: e, Src: c.Src})
+		}
+		return true
+	}
+	ok := true
+	if sig.Recv() != nil {
+		ok = add(recv, sig.Recv().Type()) && ok
+	}
+	for i := 0; i < sig.Params().Len(); i++ {
+		ok = add(params[i], sig.Params().At(i).Type()) && ok
+	}
+	if !ok {
+		c = nil
+	}
+	if w.defaultContracts == nil {
+		w.defaultContracts = map[string]*Contract{}
+	}
+	w.defaultContracts[key] = c
+	if c != nil {
+		w.Contracts[key] = c
+	}
+	return c
+}
+
+// canInline: a repository function without a contract is executed in place (its body becomes part of the
+// caller's verification conditions) when it is not recursive and does not reassign its pointer, slice or map
+// parameters (their final values are written back to the caller's arguments).
+func (fc *FuncCtx) canInline(key string, decl *ast.FuncDecl, fn *types.Func) string {
+	if decl.Body == nil {
+		return "no body"
+	}
+	if len(fc.inlineStack) >= 4 {
+		return "inlining depth"
+	}
+	if key == fc.key {
+		return "recursive"
+	}
+	for _, k := range fc.inlineStack {
+		if k == key {
+			return "recursive"
+		}
+	}
+	pkg := fc.w.FuncPkg[key]
+	if pkg == nil {
+		return "package not loaded"
+	}
+	sig := fn.Type().(*types.Signature)
+	refParam := map[*types.Var]bool{}
+	note := func(v *types.Var) {
+		if v == nil {
+			return
+		}
+		switch v.Type().Underlying().(type) {
+		case *types.Pointer, *types.Slice, *types.Map:
+			refParam[v] = true
+		}
+	}
+	note(sig.Recv())
+	for i := 0; i < sig.Params().Len(); i++ {
+		note(sig.Params().At(i))
+	}
+	why := ""
+	ast.Inspect(decl.Body, func(n ast.Node) bool {
+		switch x := n.(type) {
+		case *ast.AssignStmt:
+			for _, l := range x.Lhs {
+				if id, ok := unparen(l).(*ast.Ident); ok {
+					if v, ok := pkg.TypesInfo.ObjectOf(id).(*types.Var); ok && refParam[v] {
+						why = "parameter " + v.Name() + " is reassigned"
+					}
+				}
+			}
+		case *ast.UnaryExpr:
+			if id, ok := unparen(x.X).(*ast.Ident); ok && x.Op == token.AND {
+				if v, ok := pkg.TypesInfo.ObjectOf(id).(*types.Var); ok && refParam[v] {
+					why = "address of parameter " + v.Name() + " is taken"
+				}
+			}
+		}
+		return why == ""
+	})
+	return why
+}
+
+func (fc *FuncCtx) inlineCall(st *State, call *ast.CallExpr, fn *types.Func, recvExpr ast.Expr, key string, decl *ast.FuncDecl) []Term {
+	sig := fn.Type().(*types.Signature)
+	args := fc.bindArgs(st, call, fn, recvExpr, nil)
+	pkg := fc.w.FuncPkg[key]
+	fc.usedContracts["inlined:"+key] = true
+	// the callee runs in its own syntactic context
+	sInfo, sPkg, sDecl, sContract := fc.info, fc.pkg, fc.decl, fc.contract
+	sResultVars, sNamed, sDeferred := fc.resultVars, fc.namedResults, fc.deferred
+	sReturns, sRetVals, sBreaks, sLoopOrd := fc.returns, fc.retVals, fc.breakTargets, fc.loopOrd
+	restore := func() {
+		fc.info, fc.pkg, fc.decl, fc.contract = sInfo, sPkg, sDecl, sContract
+		fc.resultVars, fc.namedResults, fc.deferred = sResultVars, sNamed, sDeferred
+		fc.returns, fc.retVals, fc.breakTargets, fc.loopOrd = sReturns, sRetVals, sBreaks, sLoopOrd
+		fc.inlineStack = fc.inlineStack[:len(fc.inlineStack)-1]
+	}
+	opts := map[string]string{}
+	if sContract != nil {
+		for k, v := range sContract.Opts {
+			opts[k] = v
+		}
+	}
+	fc.inlineStack = append(fc.inlineStack, key)
+	fc.info, fc.pkg, fc.decl = pkg.TypesInfo, pkg, decl
+	fc.contract = &Contract{Key: key, Pkg: pkg, Loops: map[int]*LoopContract{}, Opts: opts}
+	fc.resultVars, fc.namedResults, fc.deferred = nil, false, nil
+	fc.returns, fc.retVals, fc.breakTargets = nil, nil, nil
+	fc.loopOrd = 100 * len(fc.inlineStack)
+	defer restore()
+	ast.Inspect(decl, func(n ast.Node) bool {
+		if id, ok := n.(*ast.Ident); ok {
+			if v, ok := fc.info.Defs[id].(*types.Var); ok {
+				fc.allVars[v] = true
+			}
+		}
+		return true
+	})
+	bindVar := func(v *types.Var, t Term) {
+		st.vars[v] = Term{S: t.S, T: v.Type(), Const: t.Const}
+	}
+	ai := 0
+	var paramOf []*types.Var
+	if sig.Recv() != nil && recvExpr != nil {
+		bindVar(sig.Recv(), args[0].pre)
+		paramOf = append(paramOf, sig.Recv())
+		ai = 1
+	}
+	for j := 0; j < sig.Params().Len(); j++ {
+		bindVar(sig.Params().At(j), args[ai+j].pre)
+		paramOf = append(paramOf, sig.Params().At(j))
+	}
+	for i := 0; i < sig.Results().Len(); i++ {
+		rv := sig.Results().At(i)
+		fc.resultVars = append(fc.resultVars, rv)
+		if rv.Name() != "" && rv.Name() != "_" {
+			fc.namedResults = true
+		}
+		st.vars[rv] = fc.reg().Zero(rv.Type())
+	}
+	end := fc.exec(st.clone(), decl.Body)
+	if !end.dead {
+		if sig.Results().Len() > 0 && !fc.namedResults {
+			fc.fail(decl, "missing return")
+		}
+		fc.execReturn(end, &ast.ReturnStmt{Return: decl.Body.Rbrace})
+	}
+	merged := fc.merge(fc.returns)
+	resultVars := fc.resultVars
+	restore()
+	fc.inlineStack = append(fc.inlineStack, key) // balanced by the deferred restore
+	if merged.dead {
+		// the callee never returns (every path panics or exits)
+		*st = *merged
+		var rs []Term
+		for _, rv := range resultVars {
+			rs = append(rs, fc.reg().Zero(rv.Type()))
+		}
+		return rs
+	}
+	*st = *merged
+	var results []Term
+	for _, rv := range resultVars {
+		results = append(results, st.vars[rv])
+	}
+	// what the callee did through its pointer, slice and map parameters is visible in the caller's arguments
+	for i, a := range args {
+		if i >= len(paramOf) || a.expr == nil {
+			continue
+		}
+		switch paramOf[i].Type().Underlying().(type) {
+		case *types.Pointer, *types.Slice, *types.Map:
+		default:
+			continue
+		}
+		post, ok := st.vars[paramOf[i]]
+		if !ok || post.S == a.pre.S {
+			continue
+		}
+		fc.writeBack(st, a, post, call)
+	}
+	return results
 }
